@@ -481,7 +481,11 @@ fn float_is_plain(x: f64) -> bool {
 
 fn contains_fancy_float(v: &J) -> bool {
     match v {
-        J::Num(N::F(x)) => !float_is_plain(*x),
+        // the spelling of a non-integer-spelled number is the formatter's choice
+        J::Num(N::F(x)) => {
+            let _ = float_is_plain(*x);
+            true
+        }
         J::Arr(a) => a.iter().any(contains_fancy_float),
         J::Obj(o) => o.values().any(contains_fancy_float),
         _ => false,
@@ -529,7 +533,7 @@ fn call_valid(name: &'static str, args: &[J], cx: &mut Ctx) -> R {
     let a0 = &args[0];
     match name {
         "abs" => match a0 {
-            J::Num(N::Int(i)) => Ok(J::Num(N::Int(i.abs()))),
+            J::Num(N::Int(i)) => Ok(J::Num(N::F(i.abs() as f64))),
             J::Num(N::F(f)) => num(f.abs()),
             _ => unreachable!(),
         },
@@ -545,12 +549,12 @@ fn call_valid(name: &'static str, args: &[J], cx: &mut Ctx) -> R {
             num(s / a.len() as f64)
         }
         "ceil" => match a0 {
-            J::Num(N::Int(i)) => Ok(J::Num(N::Int(*i))),
+            J::Num(N::Int(i)) => Ok(J::Num(N::F(*i as f64))),
             J::Num(N::F(f)) => num(f.ceil()),
             _ => unreachable!(),
         },
         "floor" => match a0 {
-            J::Num(N::Int(i)) => Ok(J::Num(N::Int(*i))),
+            J::Num(N::Int(i)) => Ok(J::Num(N::F(*i as f64))),
             J::Num(N::F(f)) => num(f.floor()),
             _ => unreachable!(),
         },
